@@ -830,6 +830,700 @@ fn feelsem_family(rep: &mut Report, model: &mut Model) {
   rep.extra.insert("feelsem_cases".into(), json!(rows.len()));
 }
 
+// ------------------------------------------------------------------------------------------------------------------
+// Family `bifshadow`: name resolution of the callee of an invocation (and of a bare name) when the name is also
+// the name of a built-in function. FEEL resolves a name in the scope first; a built-in function is meant only when
+// no binding of the name is visible (`build_name`: `scope.get_entry` first, `Bif::from_str` second). For EVERY
+// name of the table regenerated from feel/src/bif.rs: the name is bound — in a context of the scope (top, bottom,
+// shadowing another binding underneath), by an earlier context entry, as a formal parameter (argument given by
+// position and by name), as a `for` / `some` / `every` variable, as a key of a filtered item — to a function value
+// and to values that are no functions, and is invoked by position, by name, nested, with the wrong arity, or read
+// as an operand. The expectations are written out: the bound function is `function (p, q) 1000 + p * 10 + q`, so
+// an invocation with the integers p, q is the integer 1000 + 10 p + q (computed here with machine integers);
+// invoking a value that is no function is null; the bare name is the bound value. No built-in answers any of
+// these (they are two-argument calls with small integers whose built-in value, where there is one, is below 1000).
+// Every case is evaluated by the Lean model too (scope bindings that are function values travel as the syntax tree of
+// their definition: `(c01 evalin …)`).
+// ------------------------------------------------------------------------------------------------------------------
+
+const SHADOW_FUN: &str = "function (p, q) 1000 + p * 10 + q";
+
+struct ShadowCase {
+  /// what is bound: "function" or the kind of the non-function value
+  what: &'static str,
+  site: &'static str,
+  form: &'static str,
+  text: String,
+  /// contexts of the scope, bottom first, without the function-valued bindings
+  ctxs: Vec<FeelContext>,
+  /// function-valued bindings of the scope: (index of the context, name)
+  funs: Vec<(usize, String)>,
+  expected: Value,
+}
+
+fn pv_num(n: i64) -> Value {
+  Value::Number(n.into())
+}
+
+fn pv_list(xs: Vec<Value>) -> Value {
+  Value::List(dmntk_feel::values::Values::new(xs))
+}
+
+fn run_case_in(text: &str, ctxs: &[FeelContext], funs: &[(usize, String)], fun_text: &str, fuel: u32) -> Option<Case> {
+  if funs.is_empty() {
+    return run_case(text, ctxs, fuel);
+  }
+  let empty = Scope::default();
+  let fnode = match guarded(|| dmntk_feel_parser::parse_expression(&empty, fun_text, false)) {
+    Ok(Ok(n)) => n,
+    _ => return None,
+  };
+  let fval = match guarded(|| dmntk_feel_evaluator::evaluate(&empty, &fnode)) {
+    Ok(Ok(v)) => v,
+    _ => return None,
+  };
+  let mut full: Vec<FeelContext> = ctxs.to_vec();
+  for (i, n) in funs {
+    full[*i].set_entry(&Name::from(n.as_str()), fval.clone());
+  }
+  let mut c = run_case(text, &full, fuel)?;
+  let fast = ast_sexp(&fnode);
+  let binds: Vec<String> = funs.iter().map(|(i, n)| format!("({} {} {})", i, Sexp::str(n), fast)).collect();
+  c.request = format!("(c01 evalin {} {} {} ({}))", fuel, c.ast, scope_sexp(ctxs)?, binds.join(" "));
+  Some(c)
+}
+
+fn ctx_of(entries: &[(&str, Value)]) -> FeelContext {
+  let mut c = FeelContext::default();
+  for (k, v) in entries {
+    c.set_entry(&Name::from(*k), v.clone());
+  }
+  c
+}
+
+fn bifshadow_cases(names: &[String], rng: &mut Rng) -> Vec<ShadowCase> {
+  let mut out = vec![];
+  let others = || ctx_of(&[("n1", pv_num(2)), ("w1", Value::String("a".into()))]);
+  for nm in names {
+    let p = rng.range(0, 9);
+    let q = rng.range(0, 9);
+    let e = 1000 + p * 10 + q;
+    // the forms of a use of the name, with the value it has when the name denotes the bound function
+    let uses: Vec<(&'static str, String, Value)> = vec![
+      ("positional invocation", format!("{}({}, {})", nm, p, q), pv_num(e)),
+      ("named invocation", format!("{}(p: {}, q: {})", nm, p, q), pv_num(e)),
+      ("named invocation", format!("{}(q: {}, p: {})", nm, q, p), pv_num(e)),
+      ("positional invocation", format!("{}({}({}, {}), 1)", nm, nm, p, q), pv_num(1000 + e * 10 + 1)),
+      ("positional invocation", format!("[{}({}, {}), {}({}, {})]", nm, q, p, nm, p, q), pv_list(vec![pv_num(1000 + q * 10 + p), pv_num(e)])),
+      ("operand", format!("[{}][1]({}, {})", nm, p, q), pv_num(e)),
+      ("positional invocation with too few arguments", format!("{}({})", nm, p), Value::Null(None)),
+      ("positional invocation with too many arguments", format!("{}({}, {}, 1)", nm, p, q), Value::Null(None)),
+      ("named invocation with an unknown argument name", format!("{}(p: {}, zz: {})", nm, p, q), Value::Null(None)),
+      ("positional invocation", format!("if {}({}, {}) = {} then \"y\" else \"n\"", nm, p, q, e), Value::String("y".into())),
+      ("positional invocation", format!("(function () {}({}, {}))()", nm, p, q), pv_num(e)),
+      ("positional invocation", format!("for w9 in [1, 2] return {}(w9, {})", nm, q), pv_list(vec![pv_num(1010 + q), pv_num(1020 + q)])),
+    ];
+    // -- the name bound in a context of the scope
+    for (site, fun_at, under) in [("scope (top context)", 1usize, false), ("scope (bottom context)", 0usize, false), ("scope (top context, shadowing a number underneath)", 1usize, true)] {
+      for (form, text, want) in &uses {
+        let mut bottom = others();
+        if under {
+          bottom.set_entry(&Name::from(nm.as_str()), pv_num(7));
+        }
+        let top = ctx_of(&[("n2", pv_num(10))]);
+        out.push(ShadowCase { what: "function", site, form, text: text.clone(), ctxs: vec![bottom, top], funs: vec![(fun_at, nm.clone())], expected: want.clone() });
+      }
+    }
+    // -- the name introduced by the text itself
+    let plain = || vec![others(), ctx_of(&[("n2", pv_num(10))])];
+    // above a binding of the same name in the scope (a number): the inner binding wins
+    let over = || vec![others(), ctx_of(&[(nm.as_str(), pv_num(7))])];
+    for (form, text, want) in &uses {
+      let intro: Vec<(&'static str, String, Value)> = vec![
+        ("earlier context entry", format!("{{{}: {}, r: {}}}.r", nm, SHADOW_FUN, text), want.clone()),
+        ("formal parameter, argument by position", format!("(function ({}) {})({})", nm, text, SHADOW_FUN), want.clone()),
+        ("formal parameter, argument by name", format!("(function (k9, {}) {})({}: {}, k9: 1)", nm, text, nm, SHADOW_FUN), want.clone()),
+        ("for variable", format!("for {} in [{}] return {}", nm, SHADOW_FUN, text), pv_list(vec![want.clone()])),
+        // the second item binds the name to 0: the use is null there (an invocation of a number), kept only when null is wanted
+        (
+          "key of a filtered item",
+          format!("[{{{}: {}, k9: 1}}, {{{}: 0, k9: 2}}][({}) = {}].k9", nm, SHADOW_FUN, nm, text, value_text(want)),
+          if matches!(want, Value::Null(_)) { pv_list(vec![pv_num(1), pv_num(2)]) } else { pv_num(1) },
+        ),
+      ];
+      for (site, t, w) in intro {
+        out.push(ShadowCase { what: "function", site, form, text: t.clone(), ctxs: plain(), funs: vec![], expected: w.clone() });
+        if rng.chance(1, 3) {
+          out.push(ShadowCase { what: "function", site, form, text: t, ctxs: over(), funs: vec![], expected: w });
+        }
+      }
+      if !matches!(want, Value::Null(_)) {
+        for (site, t, w) in [
+          ("some variable", format!("some {} in [{}] satisfies ({}) = {}", nm, SHADOW_FUN, text, value_text(want)), Value::Boolean(true)),
+          ("every variable", format!("every {} in [{}, {}] satisfies ({}) = {}", nm, SHADOW_FUN, SHADOW_FUN, text, value_text(want)), Value::Boolean(true)),
+        ] {
+          out.push(ShadowCase { what: "function", site, form, text: t, ctxs: plain(), funs: vec![], expected: w });
+        }
+      }
+    }
+    // -- the name bound to a value that is no function: the binding still wins (an invocation is null, the name is the value)
+    let values: Vec<(&'static str, &'static str, Value)> = vec![
+      ("number", "7", pv_num(7)),
+      ("string", "\"s\"", Value::String("s".into())),
+      ("boolean", "true", Value::Boolean(true)),
+      ("null", "null", Value::Null(None)),
+      ("list", "[1, 2]", pv_list(vec![pv_num(1), pv_num(2)])),
+      ("context", "{a: 1}", Value::Context(ctx_of(&[("a", pv_num(1))]))),
+    ];
+    let first = rng.below(values.len() as u64) as usize;
+    for k in 0..3 {
+      let (what, lit, val) = values[(first + k * 2 + (k / 2)) % values.len()].clone();
+      let uses2: Vec<(&'static str, String, Value)> = vec![
+        ("positional invocation", format!("{}({}, {})", nm, p, q), Value::Null(None)),
+        ("named invocation", format!("{}(p: {}, q: {})", nm, p, q), Value::Null(None)),
+        ("positional invocation", format!("{}([{}, {}])", nm, p, q), Value::Null(None)),
+        ("positional invocation", format!("{}()", nm), Value::Null(None)),
+        ("operand", format!("[{}, 1]", nm), pv_list(vec![val.clone(), pv_num(1)])),
+        ("operand", format!("{} = {}", nm, lit), Value::Boolean(true)),
+      ];
+      for (form, text, want) in &uses2 {
+        out.push(ShadowCase { what, site: "scope (top context)", form, text: text.clone(), ctxs: vec![others(), ctx_of(&[(nm.as_str(), val.clone())])], funs: vec![], expected: want.clone() });
+        out.push(ShadowCase { what, site: "scope (bottom context)", form, text: text.clone(), ctxs: vec![ctx_of(&[(nm.as_str(), val.clone())]), others()], funs: vec![], expected: want.clone() });
+        out.push(ShadowCase { what, site: "earlier context entry", form, text: format!("{{{}: {}, r: {}}}.r", nm, lit, text), ctxs: plain(), funs: vec![], expected: want.clone() });
+        out.push(ShadowCase { what, site: "formal parameter, argument by position", form, text: format!("(function ({}) {})({})", nm, text, lit), ctxs: plain(), funs: vec![], expected: want.clone() });
+        out.push(ShadowCase { what, site: "for variable", form, text: format!("for {} in [{}] return {}", nm, lit, text), ctxs: plain(), funs: vec![], expected: pv_list(vec![want.clone()]) });
+      }
+    }
+  }
+  out
+}
+
+/// the text of a written-out expectation (integers, strings, null, lists of them)
+fn value_text(v: &Value) -> String {
+  match v {
+    Value::Number(n) => n.to_string(),
+    Value::String(s) => format!("\"{}\"", s),
+    Value::Boolean(b) => b.to_string(),
+    Value::List(xs) => format!("[{}]", xs.as_vec().iter().map(value_text).collect::<Vec<_>>().join(", ")),
+    _ => "null".to_string(),
+  }
+}
+
+fn judge_written_out(rep: &mut Report, model: &mut Model, family: &str, rows: Vec<(String, String, Case, Value)>) {
+  // rows: (signature if the written-out value is missed, shown input, case, expectation)
+  let reqs: Vec<String> = rows.iter().map(|(_, _, c, _)| c.request.clone()).collect();
+  let answers = model.ask_batch(&reqs);
+  for ((sig, shown, c, expected), both) in rows.iter().zip(answers.iter()) {
+    let want = match value_sexp(expected) {
+      Some(s) => format!("(ok {} same)", s),
+      None => continue,
+    };
+    let (ans, spec) = match Sexp::parse(both).as_ref().and_then(|x| x.as_list()) {
+      Some([m, d, ..]) => (m.to_string(), d.to_string()),
+      _ => (both.clone(), both.clone()),
+    };
+    rep.case(&format!("{}|{}", family, c.request), true);
+    if ans == "(unsupported)" {
+      rep.hit(&format!("{}:model-skipped(unsupported)", family));
+    } else if c.implementation != ans {
+      let sig = if ans.starts_with("(error") { "driver-error".to_string() } else { format!("evaluation differs from model ({})", family) };
+      rep.disagree(Kind::ImplVsModel, family, &sig, shown, &c.implementation, &ans);
+    } else if spec != "(unsupported)" && spec != ans {
+      rep.disagree(Kind::ImplVsModel, family, &format!("model of the code differs from the specification evaluator ({})", family), shown, &ans, &spec);
+    }
+    if c.implementation != want {
+      rep.disagree(Kind::ImplVsSpec, family, sig, shown, &c.implementation, &want);
+    }
+  }
+}
+
+fn bifshadow_family(cfg: &Cfg, rep: &mut Report, model: &mut Model) {
+  let names: Vec<String> = Sexp::parse(&model.ask("(c01 bifnames)"))
+    .and_then(|x| x.as_list().map(|l| l.iter().filter_map(sexp_string).collect()))
+    .unwrap_or_default();
+  if names.len() < 20 {
+    rep.disagree(Kind::ImplVsModel, "bifshadow", "the table of built-in function names is unreadable", "(c01 bifnames)", &format!("{:?}", names), "the names Bif::from_str accepts");
+    return;
+  }
+  let mut rng = Rng::new(cfg.seed ^ 0xb1f5);
+  // `not` is a keyword of the grammar (negation), not a name an expression can bind
+  let usable: Vec<String> = names.iter().filter(|n| n.as_str() != "not").cloned().collect();
+  let cases = bifshadow_cases(&usable, &mut rng);
+  let mut rows = vec![];
+  let mut unparsable: std::collections::BTreeMap<String, u64> = Default::default();
+  let mut judged_names: BTreeSet<String> = BTreeSet::new();
+  for sc in cases {
+    let shown = if sc.funs.is_empty() {
+      format!("{} @ scope {}", sc.text, sc.ctxs.iter().map(|c| c.to_string()).collect::<Vec<_>>().join(" / "))
+    } else {
+      format!("{} @ scope {} with {} = {} in context {}", sc.text, sc.ctxs.iter().map(|c| c.to_string()).collect::<Vec<_>>().join(" / "), sc.funs[0].1, SHADOW_FUN, sc.funs[0].0)
+    };
+    match run_case_in(&sc.text, &sc.ctxs, &sc.funs, SHADOW_FUN, 8) {
+      Some(c) => {
+        rep.hit(&format!("bifshadow:{} bound, {}, {}", if sc.what == "function" { "function" } else { "non-function" }, sc.site, sc.form));
+        let sig = format!(
+          "a name that is also the name of a built-in function, bound to a {}: {} does not have the value the binding gives it",
+          if sc.what == "function" { "function value" } else { "value that is no function" },
+          sc.form
+        );
+        if let Some(n) = usable.iter().find(|n| sc.text.contains(n.as_str())) {
+          judged_names.insert(n.clone());
+        }
+        rows.push((sig, shown, c, sc.expected));
+      }
+      None => {
+        // some names cannot be written in some positions (multi-word names as parameter / variable names,
+        // the names the lexer hands out as date and time literal names): counted, not judged (C10 is about names)
+        *unparsable.entry(sc.site.to_string()).or_insert(0) += 1;
+        rep.hit("bifshadow:not-judged(the parser rejects the text)");
+      }
+    }
+  }
+  rep.extra.insert("bifshadow_cases".into(), json!(rows.len()));
+  rep.extra.insert("bifshadow_names".into(), json!(usable.len()));
+  rep.extra.insert("bifshadow_unparsable_by_site".into(), json!(unparsable));
+  // every single-word name must have been judged at every site
+  judge_written_out(rep, model, "bifshadow", rows);
+}
+
+fn sexp_string(x: &Sexp) -> Option<String> {
+  let xs = x.as_list()?;
+  if xs.first()?.as_atom()? != "s" {
+    return None;
+  }
+  let mut s = String::new();
+  for c in &xs[1..] {
+    s.push(char::from_u32(c.as_atom()?.parse::<u32>().ok()?)?);
+  }
+  Some(s)
+}
+
+// ------------------------------------------------------------------------------------------------------------------
+// Family `partial`: in the body of a `for`, the special variable `partial` is the list of the results of the
+// iterations before the current one — the empty list in the first iteration — whatever an enclosing scope binds
+// under that name. Expectations come from a small evaluator of its own over a value type of its own (`Pv`): the
+// iteration tuples are the cartesian product of the written domains (first variable outermost), the result is the
+// fold `results.push(body(tuple, results))`, and every body form has its meaning written as a Rust closure.
+// ------------------------------------------------------------------------------------------------------------------
+
+#[derive(Clone, PartialEq, Debug)]
+enum Pv {
+  Null,
+  B(bool),
+  N(i64),
+  L(Vec<Pv>),
+}
+
+impl Pv {
+  fn value(&self) -> Value {
+    match self {
+      Pv::Null => Value::Null(None),
+      Pv::B(b) => Value::Boolean(*b),
+      Pv::N(n) => pv_num(*n),
+      Pv::L(xs) => pv_list(xs.iter().map(|x| x.value()).collect()),
+    }
+  }
+}
+
+struct PBody {
+  name: &'static str,
+  /// the text of the body over the first variable `i`
+  text: fn(&str) -> String,
+  /// its value from the value of the first variable and the results so far
+  f: fn(i64, &[Pv]) -> Pv,
+}
+
+fn prefixes(p: &[Pv]) -> Vec<Pv> {
+  // the results of `for x in p return partial`: item k is the list of the items before it
+  let mut out: Vec<Pv> = vec![];
+  for _ in p {
+    let so_far = Pv::L(out.clone());
+    out.push(so_far);
+  }
+  out
+}
+
+fn partial_bodies() -> Vec<PBody> {
+  vec![
+    PBody { name: "partial", text: |_| "partial".into(), f: |_, p| Pv::L(p.to_vec()) },
+    PBody { name: "partial = []", text: |_| "partial = []".into(), f: |_, p| Pv::B(p.is_empty()) },
+    PBody {
+      name: "running sum",
+      text: |i| format!("if partial = [] then {} else partial[-1] + {}", i, i),
+      f: |i, p| match p.last() {
+        None => Pv::N(i),
+        Some(Pv::N(l)) => Pv::N(l + i),
+        Some(_) => Pv::Null,
+      },
+    },
+    PBody { name: "[i, partial[1]]", text: |i| format!("[{}, partial[1]]", i), f: |i, p| Pv::L(vec![Pv::N(i), p.first().cloned().unwrap_or(Pv::Null)]) },
+    PBody { name: "partial[-1]", text: |_| "partial[-1]".into(), f: |_, p| p.last().cloned().unwrap_or(Pv::Null) },
+    PBody {
+      name: "inner for with its own partial",
+      text: |_| "for j9 in [10, 20] return partial".into(),
+      f: |_, _| Pv::L(vec![Pv::L(vec![]), Pv::L(vec![Pv::L(vec![])])]),
+    },
+    PBody { name: "for over partial", text: |_| "for p9 in partial return p9".into(), f: |_, p| Pv::L(p.to_vec()) },
+    PBody {
+      name: "some over partial",
+      text: |i| format!("if (some p9 in partial satisfies p9 > 1) then 0 else {}", i),
+      f: |i, p| if p.iter().any(|x| matches!(x, Pv::N(n) if *n > 1)) { Pv::N(0) } else { Pv::N(i) },
+    },
+    PBody { name: "context entry named partial inside the body", text: |_| "{partial: 5, r: partial}.r".into(), f: |_, _| Pv::N(5) },
+    PBody { name: "partial in a context entry", text: |i| format!("{{a: partial, b: {}}}.a", i), f: |_, p| Pv::L(p.to_vec()) },
+    PBody { name: "partial in a function body invoked in the body", text: |_| "(function () partial)()".into(), f: |_, p| Pv::L(p.to_vec()) },
+    PBody { name: "[partial, i, partial]", text: |i| format!("[partial, {}, partial]", i), f: |i, p| Pv::L(vec![Pv::L(p.to_vec()), Pv::N(i), Pv::L(p.to_vec())]) },
+    PBody { name: "inner for over the outer partial reading its own", text: |_| "for p9 in partial return partial".into(), f: |_, p| Pv::L(prefixes(p)) },
+    PBody {
+      name: "filter on partial",
+      text: |i| format!("[{}, partial[item[1] = {}]]", i, i),
+      f: |i, p| {
+        // the earlier results whose first item is i: none -> [], one -> that result itself (a singleton is unwrapped), more -> the list
+        let kept: Vec<Pv> = p.iter().filter(|x| matches!(x, Pv::L(v) if v.first() == Some(&Pv::N(i)))).cloned().collect();
+        let r = if kept.len() == 1 { kept[0].clone() } else { Pv::L(kept) };
+        Pv::L(vec![Pv::N(i), r])
+      },
+    },
+    PBody { name: "body without partial", text: |i| format!("{} * 2", i), f: |i, _| Pv::N(i * 2) },
+  ]
+}
+
+/// One written iteration domain: its text after `in` and the values it ranges over.
+fn partial_domain(rng: &mut Rng) -> (String, Vec<i64>) {
+  match rng.below(7) {
+    0 => {
+      let n = rng.range(1, 4);
+      let xs: Vec<i64> = (0..n).map(|_| rng.range(0, 4)).collect();
+      (format!("[{}]", xs.iter().map(|x| x.to_string()).collect::<Vec<_>>().join(", ")), xs)
+    }
+    1 => {
+      let (a, b) = (rng.range(-1, 3), rng.range(-1, 3));
+      let xs: Vec<i64> = if a <= b { (a..=b).collect() } else { (b..=a).rev().collect() };
+      (format!("{}..{}", a, b), xs)
+    }
+    2 => {
+      let a = rng.range(0, 5);
+      (format!("{}..{}", a, a), vec![a])
+    }
+    3 => {
+      let a = rng.range(0, 5);
+      (format!("[{}]", a), vec![a])
+    }
+    4 => {
+      // a value that is no list is iterated as a one-item list
+      let a = rng.range(0, 5);
+      (format!("{}", a), vec![a])
+    }
+    5 => ("l1".to_string(), vec![1, 2, 3]),
+    _ => ("[]".to_string(), vec![]),
+  }
+}
+
+fn partial_family(cfg: &Cfg, rep: &mut Report, model: &mut Model) {
+  let thorough = cfg.tier == "thorough";
+  let mut rng = Rng::new(cfg.seed ^ 0x9a27_1a1);
+  let (_, _, base) = base_scope();
+  let bodies = partial_bodies();
+  let rounds = if thorough { 60 } else { 6 };
+  let mut rows = vec![];
+  for round in 0..rounds {
+    for b in &bodies {
+      // ---- the iteration form: one, two or three variables over lists / ranges / single values
+      let nvars = if round == 0 { 1 } else { 1 + rng.below(3) as usize };
+      let mut doms = vec![];
+      for k in 0..nvars {
+        let mut d = partial_domain(&mut rng);
+        if round == 0 {
+          d = ("[5, 6, 7]".to_string(), vec![5, 6, 7]);
+        }
+        doms.push((format!("{}9", ["i", "j", "k"][k]), d.0, d.1));
+      }
+      let any_empty = doms.iter().any(|d| d.2.is_empty());
+      // the values of the first variable over the cartesian product, the first variable outermost
+      let mut firsts: Vec<i64> = vec![];
+      if !any_empty {
+        let inner: usize = doms[1..].iter().map(|d| d.2.len()).product();
+        for v in &doms[0].2 {
+          for _ in 0..inner {
+            firsts.push(*v);
+          }
+        }
+      }
+      let mut results: Vec<Pv> = vec![];
+      for v in &firsts {
+        let r = (b.f)(*v, &results);
+        results.push(r);
+      }
+      let e = Pv::L(results.clone());
+      let body_text = (b.text)(&doms[0].0);
+      let f = format!("for {} return {}", doms.iter().map(|d| format!("{} in {}", d.0, d.1)).collect::<Vec<_>>().join(", "), body_text);
+      let iterations = if firsts.len() <= 1 { "one iteration or none" } else { "several iterations" };
+      // ---- where the `for` stands: (name, text, expectation, does the scope bind a user variable `partial`)
+      let sites: Vec<(&'static str, String, Pv, bool)> = vec![
+        ("alone", f.clone(), e.clone(), false),
+        ("under a scope variable named partial", format!("[partial, {}, partial]", f), Pv::L(vec![Pv::N(99), e.clone(), Pv::N(99)]), true),
+        ("under a context entry named partial", format!("{{partial: 5, r: {}, q: partial}}", f), Pv::Null, false),
+        ("under a formal parameter named partial", format!("(function (partial) [partial, {}])(7)", f), Pv::L(vec![Pv::N(7), e.clone()]), false),
+        ("in the body of another for", format!("for k8 in [1, 2] return {}", f), Pv::L(vec![e.clone(), e.clone()]), false),
+        (
+          "in the body of another for that reads its own partial",
+          format!("for k8 in [1, 2] return [partial, {}]", f),
+          {
+            let r1 = Pv::L(vec![Pv::L(vec![]), e.clone()]);
+            let r2 = Pv::L(vec![Pv::L(vec![r1.clone()]), e.clone()]);
+            Pv::L(vec![r1, r2])
+          },
+          false,
+        ),
+        ("in a some whose variable is named partial", format!("some partial in [3] satisfies ({}) = {}", f, pv_text(&e)), Pv::B(true), false),
+      ];
+      for (si, (site, text, want, user_var)) in sites.into_iter().enumerate() {
+        let mut ctxs = base.clone();
+        let mut note = "";
+        if user_var {
+          let top = ctxs.len() - 1;
+          ctxs[top].set_entry(&Name::from("partial"), pv_num(99));
+          note = " @ base scope with partial = 99 in the top context";
+        } else if rng.chance(1, 4) {
+          // a user variable named partial underneath changes nothing
+          ctxs[0].set_entry(&Name::from("partial"), Value::String("user".into()));
+          note = " @ base scope with partial = \"user\" in the bottom context";
+        }
+        let expected: Value = if si == 2 { Value::Context(ctx_of(&[("partial", pv_num(5)), ("r", e.value()), ("q", pv_num(5))])) } else { want.value() };
+        // equality of a list with a written list containing null is not what the `some` site is about
+        if site.starts_with("in a some") && pv_text(&e).contains("null") {
+          continue;
+        }
+        match run_case(&text, &ctxs, 8) {
+          Some(c) => {
+            rep.hit(&format!("partial:{}; {}; {}", b.name, site, iterations));
+            let sig = format!("for: the body does not see the results of the iterations before it as `partial` ({})", site);
+            rows.push((sig, format!("{}{}", text, note), c, expected));
+          }
+          None => {
+            rep.disagree(Kind::ImplVsSpec, "partial", "a for expression whose body reads partial is rejected by the parser", &text, "parse error", "a syntax tree");
+          }
+        }
+      }
+    }
+  }
+  rep.extra.insert("partial_cases".into(), json!(rows.len()));
+  judge_written_out(rep, model, "partial", rows);
+}
+
+fn pv_text(v: &Pv) -> String {
+  match v {
+    Pv::Null => "null".into(),
+    Pv::B(b) => b.to_string(),
+    Pv::N(n) => n.to_string(),
+    Pv::L(xs) => format!("[{}]", xs.iter().map(pv_text).collect::<Vec<_>>().join(", ")),
+  }
+}
+
+// ------------------------------------------------------------------------------------------------------------------
+// Family `freenames` (the last clause of the property in its free-names form; theorem
+// `Dmn.Eval.eval_depends_on_free_names`): the same text is evaluated in the base scope and in scopes that bind the
+// names occurring in the text alike and differ in everything else — bindings of other names removed, rebound to
+// values of other kinds, moved to the other context, new names added. The value must be the same. A name "occurs"
+// when the text contains it as a substring (an over-approximation of the names the expression looks up). The base
+// scope binds no function values, so no function body reads a name the text does not contain. Rebound values are
+// never contexts (a context value would add its keys to the names the lexer knows: known finding F70).
+// ------------------------------------------------------------------------------------------------------------------
+fn freenames_family(cfg: &Cfg, rep: &mut Report, model: &mut Model, vars: &Vars) {
+  let thorough = cfg.tier == "thorough";
+  let mut rng = Rng::new(cfg.seed ^ 0xf4ee_a3e5);
+  let (_, _, base) = base_scope();
+  let empty = Scope::default();
+  let ev = |t: &str| crate::c09::eval_text(&empty, t);
+  let others: Vec<Value> = vec![ev("41"), ev("\"zz\""), ev("false"), ev("null"), ev("[7, 8]"), ev("date(\"2000-01-01\")"), ev("[]"), ev("duration(\"P2D\")")];
+  let mut texts: Vec<String> = corpus().iter().map(|s| s.to_string()).collect();
+  {
+    let mut g = Gen { rng: &mut rng, fresh: 0 };
+    let n = if thorough { 20_000 } else { 900 };
+    let max_depth = if thorough { 5 } else { 3 };
+    for i in 0..n {
+      let d = 1 + (i as u32 % max_depth);
+      texts.push(g.any(d, vars));
+    }
+  }
+  // texts in which a name of the scope is written without being looked up: a variable being declared, a parameter
+  // name, a context key, the name after a path's dot, an argument name
+  for t in [
+    "for n2 in [1, 2] return nz",
+    "for n2 in 1..2, s1 in [3] return nz + 1",
+    "some n1 in [1] satisfies nz = 0",
+    "every l1 in [1, 2] satisfies b1",
+    "(function(n1) nz)(1)",
+    "(function(n1, s1) nz + 1)(s1: 1, n1: 2)",
+    "{n2: 5}.n2",
+    "{n2: 5, r: nz}.r",
+    "{r: {s1: 1}}.r.s1",
+    "[{n2: 1}, {n2: 2}].n2",
+    "[{n2: 1}, {n2: 2}][nz + 1].n2",
+    "{f: function(l1) 7, r: f(l1: 0)}.r",
+  ] {
+    texts.push(t.to_string());
+  }
+  let all_names: Vec<String> = {
+    let mut v: Vec<String> = vec![];
+    for c in &base {
+      for (k, _) in c.get_entries() {
+        if !v.contains(&k.to_string()) {
+          v.push(k.to_string());
+        }
+      }
+    }
+    v
+  };
+  // the keys the lexer learns from a binding: its name and every key nested in its value (FeelContext::flatten_keys).
+  // A binding is changed only when none of them occurs in the text: which names the lexer recognises in the text is
+  // then the same in both scopes (how the lexer's set of known names shapes the syntax tree is C10's matter: known
+  // findings F70-lexer-known-names, F65-nested-key, F66-unbound-entry).
+  fn nested_keys(v: &Value, out: &mut Vec<String>) {
+    match v {
+      Value::Context(c) => {
+        for (k, x) in c.get_entries() {
+          out.push(k.to_string());
+          nested_keys(x, out);
+        }
+      }
+      Value::List(xs) => {
+        for x in xs.as_vec() {
+          nested_keys(x, out);
+        }
+      }
+      _ => {}
+    }
+  }
+  let mut learnt: std::collections::BTreeMap<String, Vec<String>> = Default::default();
+  for c in &base {
+    for (k, v) in c.get_entries() {
+      let e = learnt.entry(k.to_string()).or_default();
+      e.push(k.to_string());
+      nested_keys(v, e);
+    }
+  }
+  let mut rows: Vec<(usize, &'static str, Case)> = vec![];
+  let firsts: Vec<Option<Case>> = texts.iter().map(|t| run_case(t, &base, 8)).collect();
+  // which of the scope's names the tree looks up is decided by the model's `namesIn` (the hypothesis of
+  // `eval_depends_on_free_names`): a name occurring in the text is not looked up when the tree satisfies `namesIn`
+  // for the set of all names but this one
+  let mut asks: Vec<(usize, Option<String>, String)> = vec![];
+  for (ti, t) in texts.iter().enumerate() {
+    if let Some(f) = &firsts[ti] {
+      let occurring: Vec<&String> = all_names.iter().filter(|n| t.contains(n.as_str())).collect();
+      let absent: Vec<String> = all_names.iter().filter(|n| !t.contains(n.as_str())).map(|n| Sexp::str(n).to_string()).collect();
+      // a name that does not occur in the text is not looked up (the substring rule is sound for the model's definition)
+      asks.push((ti, None, format!("(c01 namesout {} ({}))", f.ast, absent.join(" "))));
+      for n in &occurring {
+        asks.push((ti, Some((*n).clone()), format!("(c01 namesout {} ({}))", f.ast, Sexp::str(n))));
+      }
+    }
+  }
+  let verdicts = model.ask_batch(&asks.iter().map(|a| a.2.clone()).collect::<Vec<_>>());
+  let mut not_looked_up: Vec<Vec<String>> = vec![vec![]; texts.len()];
+  for ((ti, name, _), v) in asks.iter().zip(verdicts.iter()) {
+    match (name, v.as_str()) {
+      (None, "true") => {}
+      (None, other) => rep.disagree(Kind::ImplVsModel, "freenames", "namesIn: the tree looks up a name of the scope that does not occur in the text", &texts[*ti], other, "true"),
+      (Some(n), "true") => {
+        rep.hit("freenames:a name of the scope is written in the text without being looked up");
+        not_looked_up[*ti].push(n.clone());
+      }
+      _ => {}
+    }
+  }
+  for (ti, t) in texts.iter().enumerate() {
+    // changed: the bindings of the names the tree does not look up, unless a key the lexer learns from the binding
+    // (other than a declared name itself) occurs in the text
+    let free: Vec<&String> = all_names
+      .iter()
+      .filter(|n| {
+        let declared_only = not_looked_up[ti].contains(*n);
+        (declared_only || !t.contains(n.as_str())) && learnt[n.as_str()].iter().all(|k| k == *n || !t.contains(k.as_str()))
+      })
+      .collect();
+    rep.hit(&format!("freenames:{} of {} bindings changed", if free.len() >= 12 { "12+" } else if free.len() >= 6 { "6-11" } else { "0-5" }, all_names.len()));
+    if firsts[ti].is_none() {
+      continue;
+    }
+    for mutation in ["removed", "rebound", "moved", "added"] {
+      let mut ctxs: Vec<FeelContext> = vec![FeelContext::default(), FeelContext::default()];
+      for (ci, c) in base.iter().enumerate() {
+        for (k, v) in c.get_entries() {
+          let name = k.to_string();
+          // a name bound in both contexts (n1) is visible through the top one; underneath it is not a binding of the name
+          let is_free = free.iter().any(|n| **n == name);
+          if !is_free {
+            ctxs[ci].set_entry(k, v.clone());
+            continue;
+          }
+          match mutation {
+            "removed" => {
+              if rng.chance(1, 2) {
+                ctxs[ci].set_entry(k, v.clone());
+              }
+            }
+            "rebound" => ctxs[ci].set_entry(k, rng.pick(&others).clone()),
+            "moved" => ctxs[1 - ci].set_entry(k, v.clone()),
+            _ => ctxs[ci].set_entry(k, v.clone()),
+          }
+        }
+      }
+      if mutation == "added" {
+        for j in 0..3 {
+          let n = format!("zq{}x", j);
+          if !t.contains(&n) {
+            ctxs[rng.below(2) as usize].set_entry(&Name::from(n.as_str()), rng.pick(&others).clone());
+          }
+        }
+      }
+      // `moved` may put a bottom binding over a top binding of the same name: keep the visible one (the top) for names that occur
+      if let Some(c) = run_case(t, &ctxs, 8) {
+        rows.push((ti, mutation, c));
+      } else {
+        rep.disagree(Kind::ImplVsSpec, "freenames", "a text that parses in the base scope is rejected in a scope that differs in the bindings of other names only", &format!("{} @ other names {}", t, mutation), "parse error", "a syntax tree");
+      }
+    }
+  }
+  let reqs: Vec<String> = rows.iter().map(|(_, _, c)| c.request.clone()).collect();
+  let answers = model.ask_batch(&reqs);
+  for ((ti, mutation, c), both) in rows.iter().zip(answers.iter()) {
+    let ans = match Sexp::parse(both).as_ref().and_then(|x| x.as_list()) {
+      Some([m, ..]) => m.to_string(),
+      _ => both.clone(),
+    };
+    rep.hit(&format!("freenames:{}", mutation));
+    if ans == "(unsupported)" {
+      rep.hit("skipped:unsupported");
+    } else {
+      rep.case(&c.request, c.nontrivial);
+      if c.implementation != ans {
+        let sig = if ans.starts_with("(error") { "driver-error" } else { "evaluation differs from model (scope with other bindings of the names that do not occur)" };
+        rep.disagree(Kind::ImplVsModel, "freenames", sig, &format!("{} @ other names {}", c.text, mutation), &c.implementation, &ans);
+      }
+    }
+    if let Some(f) = &firsts[*ti] {
+      if f.implementation != c.implementation {
+        let sig = if f.ast != c.ast {
+          "the syntax tree of a text changes with the bindings of names that do not occur in it"
+        } else {
+          "the value of an expression changes with the bindings of names that do not occur in it"
+        };
+        rep.disagree(Kind::ImplVsSpec, "freenames", sig, &format!("{} @ other names {} (scope {})", c.text, mutation, scope_text(&c.request)), &c.implementation, &f.implementation);
+      }
+    }
+  }
+  rep.extra.insert("freenames_texts".into(), json!(texts.len()));
+  rep.extra.insert("freenames_cases".into(), json!(rows.len()));
+}
+
+fn scope_text(request: &str) -> String {
+  // the scope part of a request line, shortened (for the shown input of a disagreement)
+  let s: String = request.chars().rev().take(400).collect::<String>().chars().rev().collect();
+  s
+}
+
 fn ast_kind(n: &AstNode) -> String {
   let s = format!("{:?}", n);
   s.split(|c| c == '(' || c == ' ' || c == '{').next().unwrap_or("").to_string()
@@ -1134,6 +1828,9 @@ pub fn run_with(cfg: &Cfg, property: &str) -> Report {
   if property == "C01" {
     shape_family(cfg, &mut rep, &mut model, &vars);
     feelsem_family(&mut rep, &mut model);
+    bifshadow_family(cfg, &mut rep, &mut model);
+    partial_family(cfg, &mut rep, &mut model);
+    freenames_family(cfg, &mut rep, &mut model, &vars);
   }
   rep.extra.insert("unparsable_generated".into(), json!(unparsable));
   rep.extra.insert("skipped_unsupported".into(), json!(skipped));
